@@ -123,6 +123,17 @@ def fault_jobs() -> List[Dict[str, Any]]:
     add("macro-undefined-no-definitions", rule="pattern:\n  - push\n  - '@undefined'\n")
     add("macro-name-without-at", rule="macros:\n  - name: 'm'\n    pattern: push\npattern:\n  - push\n")
     add("macro-file-missing", macros_text=[None])
+    # wrongly-typed entries INSIDE the pattern: an item whose body is a scalar, an operand written as a mapping with a body, an
+    # empty $deref field, a macro whose body is a number -- the rule as written cannot be compiled, so nothing may be "not found"
+    add("item-body-scalar", rule="pattern:\n  - push: rbp\n  - mov\n")
+    add("item-body-number", rule="pattern:\n  - push: 5\n  - mov\n")
+    add("operand-with-body", rule="pattern:\n  - push:\n      - rbp: [zzz]\n  - mov\n")
+    add("operand-with-times-body", rule="pattern:\n  - push:\n      - rbp:\n          times: 3\n  - mov\n")
+    add("deref-field-empty-list", rule="pattern:\n  - mov:\n      - $deref:\n          main_reg: []\n")
+    add("macro-body-number", rule="macros:\n  - name: '@off'\n    pattern: 8\npattern:\n  - push\n  - mov:\n      - $deref:\n          main_reg: rsp\n          constant_offset: '@off'\n")
+    add("macro-body-mapping-in-text", rule="macros:\n  - name: '@r'\n    pattern:\n      - $or: [rbp, rbx]\npattern:\n  - push:\n      - '%@r'\n  - mov\n")
+    add("item-is-number", rule="pattern:\n  - 1.5\n  - mov\n")
+    add("item-is-null", rule="pattern:\n  - ~\n  - mov\n")
     return jobs
 
 
